@@ -399,6 +399,16 @@ func (c *Ctx) subRef(structName string, f *types.Var, base string) string {
 		c.global(func() {
 			c.assert(fmt.Sprintf("(and (< %s 0) (= (root %s) (root %s)) (= (%s_inv %s) %s) (= (subtag %s) %d))", t, t, base, fn, t, base, t, c.tagOf["sub:"+fn]))
 		})
+	} else if strings.Contains(t, "q_") && !c.declared["subfactsQ:"+fn] {
+		// used under a quantifier: the same facts, once, for every argument
+		c.declared["subfactsQ:"+fn] = true
+		if _, ok := c.tagOf["sub:"+fn]; !ok {
+			c.tagOf["sub:"+fn] = len(c.tagOf) + 1
+		}
+		c.useQuant = true
+		c.global(func() {
+			c.assert(fmt.Sprintf("(forall ((qx Int)) (! (and (< (%s qx) 0) (= (root (%s qx)) (root qx)) (= (%s_inv (%s qx)) qx) (= (subtag (%s qx)) %d)) :pattern ((%s qx))))", fn, fn, fn, fn, fn, c.tagOf["sub:"+fn], fn))
+		})
 	}
 	return t
 }
@@ -415,6 +425,12 @@ func (c *Ctx) elemRef(arr, idx string) string {
 		c.declared[key] = true
 		c.global(func() {
 			c.assert(fmt.Sprintf("(and (< %s 0) (= (root %s) (root %s)) (= (elemref_arr %s) %s) (= (elemref_idx %s) %s) (= (subtag %s) 0))", t, t, arr, t, arr, t, idx, t))
+		})
+	} else if strings.Contains(t, "q_") && !c.declared["subfactsQ:elemref"] {
+		c.declared["subfactsQ:elemref"] = true
+		c.useQuant = true
+		c.global(func() {
+			c.assert(fmt.Sprintf("(forall ((qa Int) (qi %s)) (! (and (< (elemref qa qi) 0) (= (root (elemref qa qi)) (root qa)) (= (elemref_arr (elemref qa qi)) qa) (= (elemref_idx (elemref qa qi)) qi) (= (subtag (elemref qa qi)) 0)) :pattern ((elemref qa qi))))", c.intSort(64)))
 		})
 	}
 	return t
